@@ -331,7 +331,7 @@ pub fn dfir_text(p: &Program) -> String {
 pub fn rust_fn(p: &Program) -> String {
     let mut s = String::new();
     s += &format!("#[allow(unused_variables, unused_mut, unused_parens, deprecated, clippy::all)]\npub fn prog_{}(h: &dx_core::run::History) -> dx_core::run::Trace {{\n", p.id);
-    s += "    use dx_core::fns::{self, It};\n    #[allow(unused_imports)]\n    use dx_core::fnsx;\n";
+    s += "    #[allow(unused_imports)]\n    use dx_core::fns::{self, It};\n    #[allow(unused_imports)]\n    use dx_core::fnsx;\n";
     for k in 0..p.nsrc {
         s += &format!("    let (tx{k}, rx{k}) = dfir_rs::util::unbounded_channel::<It>();\n");
     }
